@@ -247,6 +247,62 @@ fn days_in_month(y: i64, m: i64) -> i64 {
     }
 }
 
+/// The same exclusion decided on the rendered *text*: in a tight rendering a detached sign ends up
+/// glued to the following literal ("7/+7/-7"), and a literal with a glued sign is one number token
+/// to the reader, so "7/7/-7" reads as day 7, month 7, year -7 (a valid proleptic date).  Blanks
+/// around '/' do not matter, a blank between a sign and its digits does.
+pub fn text_has_date_triple(text: &str) -> bool {
+    #[derive(Debug)]
+    enum K {
+        Num(i64),
+        Slash,
+        Other,
+    }
+    let cs: Vec<char> = text.chars().collect();
+    let mut toks: Vec<K> = Vec::new();
+    let mut i = 0;
+    while i < cs.len() {
+        let c = cs[i];
+        if c == ' ' {
+            i += 1;
+            continue;
+        }
+        let signed = (c == '+' || c == '-') && i + 1 < cs.len() && cs[i + 1].is_ascii_digit();
+        if c.is_ascii_digit() || signed {
+            let mut j = if signed { i + 1 } else { i };
+            let start = j;
+            while j < cs.len() && cs[j].is_ascii_digit() {
+                j += 1;
+            }
+            let int_part: String = cs[start..j].iter().collect();
+            // fraction / grouping / suffix letters belong to the same literal
+            while j < cs.len() && (cs[j].is_ascii_alphanumeric() || cs[j] == ',' || cs[j] == '.') {
+                j += 1;
+            }
+            let mut v = int_part.parse::<i64>().unwrap_or(i64::MAX);
+            if c == '-' {
+                v = -v;
+            }
+            toks.push(K::Num(v));
+            i = j;
+        } else if c == '/' {
+            toks.push(K::Slash);
+            i += 1;
+        } else {
+            toks.push(K::Other);
+            i += 1;
+        }
+    }
+    for w in toks.windows(5) {
+        if let (K::Num(d), K::Slash, K::Num(m), K::Slash, K::Num(y)) = (&w[0], &w[1], &w[2], &w[3], &w[4]) {
+            if *m >= 1 && *m <= 12 && *d >= 1 && *y > -262_000 && *y < 262_000 && *d <= days_in_month(*y, *m) {
+                return true;
+            }
+        }
+    }
+    false
+}
+
 /// The statement excludes a quotient chain `a / b / c` whose operands read as a valid
 /// day/month/year.  Applied to the rendered token stream: three literals separated by '/'
 /// with nothing in between (blanks do not count) form a date if day and month are valid.
